@@ -119,13 +119,16 @@ def menu(f):
         add('slice', n >= 2, sel=[[d, ['s', 1, None, None]]])
         add('slice', n >= 2, sel=[[d, ['s', None, -1, None]]])
         add('slice', n >= 1, sel=[[d, ['l', [0, n - 1]]]])
+        if d == 'TSTEP':
+            # a boolean mask (the result of a comparison on the times) whose first element is False
+            add('slice', n >= 2, sel=[[d, ['b', [0] + [1] * (n - 1)]]])
         # the documented short names f.slice / f.subset / f.apply are the same operations
         add('slice', n >= 2, sel=[[d, ['s', 1, None, None]]], alias=True)
     if len(vl) >= 1:
         add('subset', True, keys=[vl[0]])
         add('subset', len(vl) >= 2, keys=[vl[0]], exclude=True)
         add('subset', True, keys=[vl[-1]], alias=True)
-        newv = next((n for n in ('RN1', 'RN2') if n not in f.variables), None)
+        newv = next((n for n in ('TFLAG_QA', 'RN2') if n not in f.variables), None)
         if newv:
             add('renameVariable', True, old=vl[-1], new=newv)
             # a name longer than the 16 characters of a VAR-LIST field cannot be listed: the count shrinks while the
